@@ -31,6 +31,8 @@ BUILT = {
          "trusted: probe values; link MTU threshold >= configured min_mtu"),
  "C14": ("tokens", "server acceptance against a binding model over a registry of byte strings the server really issued (Retry and NEW_TOKEN tokens harvested in the same world; both key types; BloomTokenLog default/tiny, exact-set log, NoneTokenLog; lifetimes 1 s..days; generated monotone server clock): genuine, bit-flipped (exhaustive per token in c14a-flips), truncated, extended, spliced and foreign tokens presented from the issuing address, another port, another IP and v4-mapped forms before/at/after expiry and repeatedly; twin presentation of the same Initial with and without an unusable token; client side: Retry packets rewritten/forged/duplicated/late on the link (tag recomputed independently), single-field edits of the three CID transport parameters in both directions, TokenMemoryCache reconnect histories observed on the wire; model-based histories of BloomTokenLog and TokenMemoryCache",
          "trusted: reference models; unforgeability of the AEAD/HMAC is assumed (SimCrypto token key or ring); contract derived from module docs and the callers"),
+ "C09": ("simnet", "worlds with 1-3 client endpoints, 1-2 server endpoints and 2-10 connections starting at generated times over one faulty link, CID generators seeded/random/hashed with lengths 0..20, CID lifetimes 0.1-3 s, local_address_changed() rotations, one target connection closed early by either side; the link tags each datagram with the emitting connection and every datagram Endpoint::handle hands to a connection must reach the emitter's peer; per-connection content keys; non-target workloads complete without ConnectionLost; connection IDs the peer has retired (retirement acknowledged) and client-chosen initial IDs in short headers route to no connection while the connections live; after close and drain open_connections()==0 and every connection ID ever seen on the wire routes to nothing",
+         "trusted: link tag and client/server pairing; with zero-length CIDs one connection per endpoint address pair; live stale-ID probes only for generators with >= 2^48 values"),
  "C10": ("codec", "enumeration plus proptest over the verif-hooks codec wrappers: varints (all 1/2-byte values, boundary-dense 4/8-byte), packet-number truncation/expansion vs RFC 9000 A.2/A.3 reference, frames of all 24 kinds, headers/coalesced packets, transport parameters, tokens (AES-GCM and SimCrypto keys), hashed CIDs: decode(encode(x)) == x, differential agreement with the independent codec wire.rs in both directions, byte-equality of encoders, close frames fit their budget; totality: arbitrary bytes, mutations and every prefix of valid encodings through every decoder without panic or out-of-bounds, accept => re-encode fixpoint",
          "trusted: independent reference codec wire.rs (checked against itself); RFC-strictness disagreements on transport parameters (non-minimal integers refused; slack bytes in two parameters accepted) are observations, not violations of C10 as stated"),
  "C18": ("asyncsim", "the real quinn crate on a harness Runtime (single-threaded deterministic executor, virtual timers, in-memory UDP with generated faults, GSO/GRO batching, send blocking): generated programs of 1-3 application tasks per side over 1-2 connections using every awaited operation with generated cancellation plans and handle drops, scheduled by generated scheduler bytes; oracles: no lost wakeup (spurious re-poll / fresh future at every idle point must not be ready), stuck-operation and livelock bounds in virtual time, byte-exact integrity and explained terminal results, cancel-safety through the integrity bookkeeping, implicit finish/stop/close on handle drop delivered within 3 s virtual on loss-free worlds, driver tasks terminate, no wake into a completed application task",
